@@ -27,6 +27,8 @@ def plan(tier, seed):
         specs += ec.fixture_specs()
     for p in range(2):
         specs.append(dict(name="helper-%d" % p, mode="interp", what="helper", part=p, parts=2, full=not q, seed=[seed, 77, p]))
+    for p in range(2 if q else 6):
+        specs.append(dict(name="sweep-%d" % p, mode="interp", what="sweep", n=3 if q else 8, seed=[seed, 7777, p]))
     for p in range(4 if q else 8):
         specs.append(dict(name="pairs-%d" % p, mode="interp", what="pairs", n=4 if q else 15, seed=[seed, 777, p]))
     return specs
@@ -166,6 +168,10 @@ def run_pairs(spec, res):
     for i in range(spec["n"]):
         case = wc.gen_single(rng, "small" if i % 2 else "plain")
         case["data"]["T"] = min(case["data"]["T"], 90)
+        case["W"] = [1, 2, 3, 4, 5, 6, 8, 4][(i + int(spec["seed"][2]) * spec["n"]) % 8]     # every parity class of W, incl. multiples of 4
+        if case["data"]["N"] * case["W"] > 12:
+            case["data"]["N"] = 1
+        case["data"]["T"] = max(case["data"]["T"], 3 * case["K"] + case["W"] + 4)
         if case["beta"]["form"].startswith("vector"):
             case["beta"] = dict(form="float", value=float(case["beta"]["value"]))
         jcase = dict(case)
@@ -212,7 +218,36 @@ def check_pair(res, case, jcase):
     res.nontriv(common.h(case))
 
 
+def run_sweep(spec, res):
+    """History: a caller sweeps per-pair switching costs through ONE array object, refilled in place between joint calls whose
+    series have the same total stacked length but different boundaries.  What reaches the labelling step must be this call's
+    vector (masked or, by the recorded finding, unmasked) - never an earlier call's."""
+    rng = np.random.default_rng(spec["seed"])
+    wc.NW_CAP[0] = 6
+    for i in range(spec["n"]):
+        base = wc.gen_joint(rng, "joint_vector")
+        W = base["W"]
+        total = int(rng.integers(50, 90))
+        cases = []
+        for j in range(3):
+            cut = int(rng.integers(8, total - 8))
+            c = dict(base)
+            c["data"] = dict(base["data"])
+            c["data"]["T"] = [cut + W - 1, total - cut + W - 1]          # same total stacked length, another boundary
+            c["data"]["seed"] = int(base["data"]["seed"]) + j
+            c["beta"] = dict(form="vector_rand", value=float(rng.choice([1.0, 5.0, 50.0])), seed=int(rng.integers(0, 10 ** 6)))
+            c["beta_buffer"] = "sweep-%s-%d" % (spec["name"], i)
+            c["limit"] = 2
+            c["eps"] = 0.0
+            cases.append(c)
+        e2e_check.run_cases(res, cases, PROPS, nontrivial, coverage_props=())
+        res.count("buffer_reuse_sequences")
+
+
 def run_shard(spec, res):
+    if spec["what"] == "sweep":
+        run_sweep(spec, res)
+        return
     if spec["what"] in ("e2e", "fixture"):
         ec.run_e2e_shard(spec, res, PROPS, nontrivial)
         from fast_ticc import data_preparation as dp
@@ -247,6 +282,7 @@ def finalize(merged, tier):
         out["inconclusive"].append("only %d joint runs with a priced boundary were decided" % seen)
     ec.min_counter(merged, out, "pairs_compared", 8 if q else 60)
     ec.min_counter(merged, out, "compositions_checked", 500 if q else 4000)
+    ec.min_counter(merged, out, "buffer_reuse_sequences", 5 if q else 40)
     ec.min_counter(merged, out, "stacked_arrays_checked", 60 if q else 600)
     ec.unexpected(merged, out)
     out["helper_exhaustive"] = (not q)
